@@ -180,9 +180,35 @@ def run_part(prop, pi, part, hdir, tier, seed, args, logdir):
             jobs = min(args.jobs, part.get('max_jobs', {}).get(tier, args.jobs), len(sel))
             log(f'[{prop}] part {pi} ({engine}): {len(sel)} harnesses, tier {tier}, {jobs} parallel, '
                 f'{tmo}s/harness, building ...')
-            r = core.run_kani(cwd, package, target_dir, names, jobs, tmo, mem, exact=exact,
-                              total_timeout=tmo * ((len(sel) + jobs - 1) // jobs) + 3600,
-                              logfile=os.path.join(logdir, f'part{pi}.log'))
+            rec = part.get('recursion_bound')
+            if rec:
+                # CBMC cannot see the variant of a nested term as a constant and would explore every
+                # arm of the recursive function down to the global unwind bound; bound the recursion
+                # of that one function separately (per group of harnesses with the same true depth),
+                # unwinding assertions stay on, so a bound that is too small is reported.
+                mangled = core.find_mangled(cwd, package, target_dir, names[:1], rec['fn_pretty'], exact,
+                                            os.path.join(logdir, f'part{pi}-codegen.log'))
+                if not mangled:
+                    raise Inconclusive(f"could not locate the compiled symbol of {rec['fn_pretty']} (anchor drift?)")
+                groups = {}
+                for h, n in zip(sel, names):
+                    groups.setdefault(int(h.get('rec_depth', rec.get('default', 3))), []).append(n)
+                outs, built, timed = [], True, False
+                for depth, gnames in sorted(groups.items()):
+                    gj = min(jobs, len(gnames))
+                    log(f'[{prop}]   recursion bound {depth}: {len(gnames)} harnesses')
+                    rr = core.run_kani(cwd, package, target_dir, gnames, gj, tmo, mem, exact=exact,
+                                       total_timeout=tmo * ((len(gnames) + gj - 1) // gj) + 3600,
+                                       logfile=os.path.join(logdir, f'part{pi}-rec{depth}.log'),
+                                       cbmc_args=['--unwindset', f'{mangled}:{depth}'])
+                    outs.append(rr['out'])
+                    built = built and rr['built']
+                    timed = timed or rr['timed_out']
+                r = {'out': '\n'.join(outs), 'built': built, 'timed_out': timed}
+            else:
+                r = core.run_kani(cwd, package, target_dir, names, jobs, tmo, mem, exact=exact,
+                                  total_timeout=tmo * ((len(sel) + jobs - 1) // jobs) + 3600,
+                                  logfile=os.path.join(logdir, f'part{pi}.log'))
             m = re.search(r'Finished `\w+` profile.*? in ([0-9.]+)s', r['out'])
             out['build_s'] = float(m.group(1)) if m else 0.0
             if not r['built']:
